@@ -59,6 +59,7 @@ ASSUMPTIONS = [
 ]
 
 FOREVER = S.INF
+STEP_BUDGET = 25 * 10 ** 6     # per case (deterministic, unlike wall time)
 
 
 # --------------------------------------------------------------- generator
@@ -440,7 +441,7 @@ def run_case(case):
                     if len(occs[ln]) > 1:
                         targets.add(r.choice(occs[ln][1:]))
                     for n in sorted(targets):
-                        if violations:
+                        if violations or steps > STEP_BUDGET:
                             break
                         others = [t for t in range(k) if t != a]
                         r.shuffle(others)
@@ -449,9 +450,11 @@ def run_case(case):
                         used_lines.add((a, ln))
                         violations += one('one_preemption',
                                           S.SegmentPolicy(segs), False)
-            probe('single_preemption_stratum_exhausted')
+            probe('single_preemption_stratum_exhausted'
+                  if steps <= STEP_BUDGET else
+                  'single_preemption_stratum_cut_by_step_budget')
         for j in range(case['nsched']):
-            if violations:
+            if violations or steps > 2 * STEP_BUDGET:
                 break
             name, policy, track = schedule_for(case, j, profiles, used_lines)
             violations += one(name, policy, track)
